@@ -169,6 +169,86 @@ func lbAfterIdle(r *vrt.Run, s *lbServers) (fs []vrt.Finding) {
 	return fs
 }
 
+// lbHalfCloseOnce: one connection, two pipelined queries whose pipeline takes
+// 200 ms, then the client closes its sending direction (shutdown(SHUT_WR) /
+// TLS close_notify) and reads until the server closes.  It returns "" if both
+// queries were answered.
+func lbHalfCloseOnce(s *lbServers, t string) (detail string) {
+	conn, err := lbDialStream(s, t == "dot")
+	if err != nil {
+		return "dial: " + err.Error()
+	}
+	defer conn.Close()
+	var reqs []*dns.Msg
+	var stream []byte
+	for i := 0; i < 2; i++ {
+		m := vdns.NewReq(uint16(0x7d00+i), fmt.Sprintf("Slow-%d.Half-Close.Example.", i), dns.TypeA, dns.ClassINET)
+		w, _ := m.Pack()
+		reqs, stream = append(reqs, m), append(stream, lbFrame(w)...)
+	}
+	if _, err = conn.Write(stream); err != nil {
+		return "write: " + err.Error()
+	}
+	type closeWriter interface{ CloseWrite() error }
+	cw, ok := conn.(closeWriter)
+	if !ok {
+		vrt.Fatalf("c01 loopback: %T cannot half-close", conn)
+	}
+	if err = cw.CloseWrite(); err != nil {
+		return "half-close: " + err.Error()
+	}
+	_ = conn.SetReadDeadline(time.Now().Add(lbTimeout))
+	data, rerr := io.ReadAll(conn)
+	got := map[uint16]*dns.Msg{}
+	for len(data) >= 2 {
+		l := int(binary.BigEndian.Uint16(data))
+		if len(data) < 2+l {
+			break
+		}
+		m := &dns.Msg{}
+		if m.Unpack(data[2:2+l]) == nil {
+			got[m.Id] = m
+		}
+		data = data[2+l:]
+	}
+	for i, req := range reqs {
+		m := got[req.Id]
+		if m == nil {
+			return fmt.Sprintf("query %d of 2 (%q), sent before the half-close, got no answer (read ended with %v, answers to ids %v)", i+1, req.Question[0].Name, rerr, lbKeys(got))
+		}
+		_, want := dnsserver.VerifC01Expect(req.Question[0])
+		if echo := dnsserver.VerifC01Echo("x", req, m, false); len(echo) > 0 || !dnsserver.VerifC01Same(dnsserver.VerifC01TupleOf(m), want, false) {
+			return fmt.Sprintf("query %d of 2: answer %s does not match", i+1, vdns.Canon(m, true))
+		}
+	}
+
+	return ""
+}
+
+func lbKeys(m map[uint16]*dns.Msg) (ks []uint16) {
+	for k := range m {
+		ks = append(ks, k)
+	}
+
+	return ks
+}
+
+// lbHalfClose applies the three-attempts rule to lbHalfCloseOnce.
+func lbHalfClose(r *vrt.Run, s *lbServers, t string) (fs []vrt.Finding) {
+	var last string
+	for a := 0; a < lbAttempts; a++ {
+		last = lbHalfCloseOnce(s, t)
+		r.Trans(2)
+		if last == "" {
+			r.Class(fmt.Sprintf("loopback:%s half-close -> both answered (attempt %d)", t, a+1))
+
+			return nil
+		}
+	}
+
+	return vrt.F("loopback-"+t+"/accepted-query-unanswered-after-half-close", "%d attempts: %s", lbAttempts, last)
+}
+
 // lbObs is what a client saw.
 type lbObs struct {
 	Msgs     []*dns.Msg
@@ -754,6 +834,9 @@ func lbRun(t *testing.T, r *vrt.Run, c lbCase) (fs []vrt.Finding) {
 	if c.T == "doq" && (c.What == "long-lived-130" || c.What == "long-lived-limit-8") {
 		return lbLongLived(r, s, c.What)
 	}
+	if c.What == "half-close" {
+		return lbHalfClose(r, s, c.T)
+	}
 	if c.T == "all" && c.What == "after-idle" {
 		return lbAfterIdle(r, s)
 	}
@@ -931,6 +1014,10 @@ func TestVerifC01Loopback(t *testing.T) {
 			// timed out k times before a client connects.
 			emit(lbCase{T: "doq", What: "accept-timeouts-1"})
 			emit(lbCase{T: "doq", What: "accept-timeouts-2"})
+			// A client that sends two pipelined queries, half-closes and then
+			// reads; the pipeline takes 200 ms.
+			emit(lbCase{T: "tcp", What: "half-close"})
+			emit(lbCase{T: "dot", What: "half-close"})
 			// Idle for longer than the accept / read deadline, then a new
 			// connection on every transport; twice.
 			emit(lbCase{T: "all", What: "after-idle"})
